@@ -8,6 +8,10 @@
       1. ConvexFunction           F = max_j ( f_j + <g_j, . - x_j> )        (max-affine interpolant)
       2. ConvexIndicatorFunction  F = indicator of the convex hull of the x_i (any D, finite or not)
       3. StronglyConvexFunction   F = max-affine interpolant of the shifted data + mu/2 |.|^2
+      4. ConvexLipschitzFunction  F = the max-affine interpolant again (M-Lipschitz by Cauchy-Schwarz)
+      5. ConvexSupportFunction    C = convex hull of the g_i, sigma = max_i <g_i, .> (any M)
+      6. graph-defined operator classes (monotone, strongly monotone, cocoercive, negatively
+         comonotone, Lipschitz, nonexpansive): the finite graph {(x_i, g_i)} itself (no extension)
 
     [convex_member] of Spec/Classes.v is [True]; to make the statements meaningful the convexity of
     the constructed F (segment inequality on a convex domain, [convex_seg]) is part of each
@@ -411,6 +415,178 @@ Section Suff.
     intro H. exists (ind_fn l). split; [apply ind_fn_member, H|].
     split; [apply ind_fn_convex|]. split; [intro; reflexivity|]. apply (ind_fn_genuine D), H.
   Qed.
+
+  (** * 4. ConvexLipschitzFunction(M): the max-affine interpolant is M-Lipschitz when |g_i| <= M *)
+
+  (** a linear form <g, .> with |g|^2 <= M^2 is M-Lipschitz (Cauchy-Schwarz), squared form *)
+  Lemma lin_form_lip M (g w : E) : ref_bounded_g M g <= 0 -> (inner g w) ^ 2 <= M ^ 2 * nrm2 w.
+  Proof.
+    unfold ref_bounded_g, nrm2. intro Hg.
+    pose proof (cauchy_schwarz g w) as CS. pose proof (inner_pos E w) as Hw.
+    assert (H : inner g g * inner w w <= M ^ 2 * inner w w) by (apply Rmult_le_compat_r; lra).
+    replace (inner g w ^ 2) with (inner g w * inner g w) by ring. lra.
+  Qed.
+
+  Definition bounded_cond (M : R) (l : list tri) : Prop :=
+    forall x g f, In (x, g, f) l -> ref_bounded_g M g <= 0.
+
+  (** one-sided: F x - F y <= <g, x - y> for the slope g of a piece active at x *)
+  Lemma maxaff_diff M s0 l x y :
+    bounded_cond M (s0 :: l) ->
+    exists g, ref_bounded_g M g <= 0 /\ maxaff s0 l x - maxaff s0 l y <= inner g (vsub x y).
+  Proof.
+    intro Hb. destruct (maxaff_attained s0 l x) as [[[xs gs] fs] [Hs Hv]].
+    exists gs. split; [apply (Hb _ _ _ Hs)|].
+    pose proof (maxaff_ge s0 l y _ Hs) as P. rewrite Hv. cbn [aff] in P |- *.
+    rewrite inner_sub_r in P. rewrite !inner_sub_r. lra.
+  Qed.
+
+  Lemma maxaff_lipschitz M s0 l : bounded_cond M (s0 :: l) -> lipschitz_fn M (maxaff_fn s0 l).
+  Proof.
+    intro Hb. split; [intro; exact I|]. intros x y. cbn [val maxaff_fn].
+    destruct (maxaff_diff M s0 l x y Hb) as [g [Hg P]].
+    destruct (maxaff_diff M s0 l y x Hb) as [g' [Hg' P']].
+    pose proof (lin_form_lip M g (vsub x y) Hg) as Q.
+    pose proof (lin_form_lip M g' (vsub y x) Hg') as Q'.
+    rewrite (nrm2_sub_sym y x) in Q'.
+    set (K := M ^ 2 * nrm2 (vsub x y)) in *.
+    set (a := inner g (vsub x y)) in *. set (b := inner g' (vsub y x)) in *.
+    set (d := maxaff s0 l x - maxaff s0 l y) in *.
+    assert (P'' : - d <= b) by (unfold d; lra). clearbody K a b d.
+    destruct (Rle_dec 0 d) as [Hd|Hd]; nra.
+  Qed.
+
+  (** SUFFICIENCY, ConvexLipschitzFunction(M) (no sign condition on M is needed: only M^2 occurs). *)
+  Theorem suff_convex_lipschitz (M : R) (l : list tri) :
+    l <> [] -> convex_cond l -> bounded_cond M l ->
+    exists F : fnE, lipschitz_fn M F /\ convex_member F /\ convex_seg F /\
+                    forall s, In s l -> genuine_sub F s.
+  Proof.
+    destruct l as [|s0 l]; [congruence|]. intros _ Hc Hb.
+    exists (maxaff_fn s0 l). split; [apply maxaff_lipschitz, Hb|]. split; [exact I|].
+    split; [apply maxaff_convex|]. apply maxaff_genuine, Hc.
+  Qed.
+
+  (** * 5. ConvexSupportFunction(M): C = hull of the g_i, sigma = max_i <g_i, .> *)
+
+  (** the linear piece <g, .> as a triple for [maxaff] *)
+  Definition lin (s : tri) : tri := (vzero, snd (fst s), 0).
+
+  Lemma aff_lin s x : aff (lin s) x = inner (snd (fst s)) x.
+  Proof. unfold lin. cbn [aff]. rewrite inner_sub_r, inner_zero_r. lra. Qed.
+
+  Definition sigma_max (s0 : tri) (l : list tri) (x : E) : R := maxaff (lin s0) (map lin l) x.
+
+  Lemma sigma_ge s0 l x xi gi fi : In (xi, gi, fi) (s0 :: l) -> inner gi x <= sigma_max s0 l x.
+  Proof.
+    intro Hs. unfold sigma_max.
+    assert (Hs' : In (lin (xi, gi, fi)) (lin s0 :: map lin l))
+      by (change (In (lin (xi, gi, fi)) (map lin (s0 :: l))); apply in_map, Hs).
+    pose proof (maxaff_ge _ _ x _ Hs') as P. rewrite aff_lin in P. exact P.
+  Qed.
+
+  Lemma sigma_le s0 l x b :
+    (forall xi gi fi, In (xi, gi, fi) (s0 :: l) -> inner gi x <= b) -> sigma_max s0 l x <= b.
+  Proof.
+    intro H. unfold sigma_max. apply maxaff_le. intros s' Hs'.
+    change (In s' (map lin (s0 :: l))) in Hs'. apply in_map_iff in Hs'.
+    destruct Hs' as [[[xi gi] fi] [Heq Hin]]. subst s'. rewrite aff_lin. apply (H _ _ _ Hin).
+  Qed.
+
+  Lemma sigma_attained s0 l x :
+    exists xi gi fi, In (xi, gi, fi) (s0 :: l) /\ sigma_max s0 l x = inner gi x.
+  Proof.
+    unfold sigma_max. destruct (maxaff_attained (lin s0) (map lin l) x) as [s' [Hs' Hv]].
+    change (In s' (map lin (s0 :: l))) in Hs'. apply in_map_iff in Hs'.
+    destruct Hs' as [[[xi gi] fi] [Heq Hin]]. subst s'. rewrite aff_lin in Hv.
+    exists xi, gi, fi. split; [exact Hin|exact Hv].
+  Qed.
+
+  (** the sampled subgradients of a list of triples *)
+  Definition gs (l : list tri) (u : E) : Prop := exists x f, In (x, u, f) l.
+
+  Definition support_cond (M : option R) (l : list tri) : Prop :=
+    (forall x g f, In (x, g, f) l -> ref_sup_fenchel x g f = 0) /\
+    (forall xi gi fi xj gj fj, In (xi, gi, fi) l -> In (xj, gj, fj) l -> ref_sup_convex xj gi gj <= 0) /\
+    match M with
+    | Some m => forall x g f, In (x, g, f) l -> ref_bounded_g m g <= 0
+    | None => True
+    end.
+
+  Lemma nrm2_sub_zero (u : E) : nrm2 (vsub u vzero) = nrm2 u.
+  Proof. rewrite nrm2_sub. unfold nrm2. rewrite !inner_zero_r. lra. Qed.
+
+  (** SUFFICIENCY, ConvexSupportFunction(M), M finite or not: C is convex, sigma is its support
+      function (an upper bound of <c, .> on C that is attained in C at every x), C lies in the ball
+      of radius M, and every triple is a genuine sample (g_i in C is a maximiser at x_i). *)
+  Theorem suff_support (M : option R) (l : list tri) :
+    l <> [] -> support_cond M l ->
+    exists (C : E -> Prop) (sigma : E -> R),
+      support_member M C sigma /\
+      (forall c c' t, C c -> C c' -> 0 <= t <= 1 -> C (seg c c' t)) /\
+      (forall x, exists c, C c /\ inner c x = sigma x) /\
+      forall s, In s l -> genuine_support C sigma s.
+  Proof.
+    destruct l as [|s0 l]; [congruence|]. intros _ [Hf [Hc Hb]].
+    exists (hull (gs (s0 :: l))), (sigma_max s0 l). split; [|split; [|split]].
+    - constructor.
+      + intros x c Hcx. apply (hull_halfspace (gs (s0 :: l)) x (sigma_max s0 l x) c); [|exact Hcx].
+        intros u [xu [fu Hu]]. apply (sigma_ge s0 l x _ _ _ Hu).
+      + destruct M as [m|]; [|exact I]. intros c Hcx.
+        rewrite <- nrm2_sub_zero. apply (hull_ball (gs (s0 :: l)) vzero (m ^ 2) c); [|exact Hcx].
+        intros u [xu [fu Hu]]. rewrite nrm2_sub_zero.
+        pose proof (Hb _ _ _ Hu) as P. unfold ref_bounded_g in P. lra.
+    - intros c c' t. apply hull_convex.
+    - intro x. destruct (sigma_attained s0 l x) as [xi [gi [fi [Hin Hv]]]].
+      exists gi. split; [apply hull_pt; exists xi, fi; exact Hin|symmetry; exact Hv].
+    - intros [[xj gj] fj] Hs.
+      assert (Hv : inner gj xj = sigma_max s0 l xj).
+      { apply Rle_antisym; [apply (sigma_ge s0 l xj _ _ _ Hs)|].
+        apply sigma_le. intros xi gi fi Hi.
+        pose proof (Hc _ _ _ _ _ _ Hi Hs) as P. unfold ref_sup_convex in P.
+        rewrite inner_sub_r, !(inner_sym E xj) in P. lra. }
+      split; [apply hull_pt; exists xj, fj; exact Hs|]. split; [exact Hv|].
+      pose proof (Hf _ _ _ Hs) as P. unfold ref_sup_fenchel in P. lra.
+  Qed.
+
+  (** * 6. Operator classes defined on graphs: interpolation by the finite graph itself.
+
+      The operator classes of Spec/Classes.v are predicates on a set-valued graph
+      ([forall x u y v, A x u -> A y v -> ...]); the finite graph A = {(x_i, g_i)} is therefore a
+      member of the class IF AND ONLY IF the pairwise reference condition holds on all ordered
+      pairs, and every sample is trivially a genuine sample of it.  This is all that these
+      first-principles definitions ask for.  Extending the finite graph to a maximal monotone /
+      everywhere-defined Lipschitz operator (Zorn / Kirszbraun-Valentine) is NOT proved here and
+      stays in the trusted base. *)
+  Definition graph_of (l : list tri) : @graph E := fun x g => exists f, In (x, g, f) l.
+
+  Definition all_pairs (r : E -> E -> E -> E -> R) (l : list tri) : Prop :=
+    forall xi gi fi xj gj fj, In (xi, gi, fi) l -> In (xj, gj, fj) l -> r xi gi xj gj <= 0.
+
+  Lemma graph_pairs_iff (r : E -> E -> E -> E -> R) (Q : E -> E -> E -> E -> Prop) l :
+    (forall x u y v, r x u y v <= 0 <-> Q x u y v) ->
+    (all_pairs r l <-> forall x u y v, graph_of l x u -> graph_of l y v -> Q x u y v).
+  Proof.
+    intro H. split.
+    - intros Hp x u y v [fx Hx] [fy Hy]. apply H. apply (Hp _ _ _ _ _ _ Hx Hy).
+    - intros Hq xi gi fi xj gj fj Hi Hj. apply H. apply Hq; [exists fi; exact Hi|exists fj; exact Hj].
+  Qed.
+
+  Theorem suff_graph_classes (l : list tri) :
+    (forall s, In s l -> genuine_op (graph_of l) s) /\
+    (all_pairs ref_monotone l <-> monotone_op (graph_of l)) /\
+    (forall mu, all_pairs (ref_strong_monotone mu) l <-> strongly_monotone_op mu (graph_of l)) /\
+    (forall beta, all_pairs (ref_cocoercive beta) l <-> cocoercive_op beta (graph_of l)) /\
+    (forall rho, all_pairs (ref_neg_comonotone rho) l <-> neg_comonotone_op rho (graph_of l)) /\
+    (forall L, all_pairs (ref_lipschitz L) l <-> lipschitz_op L (graph_of l)) /\
+    (all_pairs ref_nonexpansive l <-> nonexpansive_op (graph_of l)).
+  Proof.
+    split; [intros [[x g] f] Hs; exists f; exact Hs|].
+    split; [|split; [|split; [|split; [|split]]]]; intros;
+      apply graph_pairs_iff; intros x u y v;
+      unfold ref_monotone, ref_strong_monotone, ref_cocoercive, ref_neg_comonotone, ref_lipschitz,
+             ref_nonexpansive; split; intro; lra.
+  Qed.
 End Suff.
 
 (** * Non-vacuity on the real line *)
@@ -469,4 +645,51 @@ Proof.
   split; [exact Hc|].
   destruct (suff_indicator (Some 2) ex_ind Hc) as [F [HF [HC [_ Hg]]]].
   exists F. split; [exact HF|]. split; assumption.
+Qed.
+
+(** the same three triples read as samples of a 1-Lipschitz convex function (|x|), of the support
+    function of [-1, 1] (sigma = |x|, the g_i in C, M = 1), and of a monotone nonexpansive operator
+    (the graph {(-1,-1), (0,0), (1,1)}) *)
+Example suff_lipschitz_nonvacuous :
+  bounded_cond 1 ex_abs /\
+  exists F : @fn R1, lipschitz_fn 1 F /\ convex_seg F /\ forall s, In s ex_abs -> genuine_sub F s.
+Proof.
+  assert (Hb : bounded_cond 1 ex_abs).
+  { intros x g f H. unfold ex_abs in H. cbn [In] in H.
+    destruct H as [H|[H|[H|[]]]]; inversion H; subst; unfold ref_bounded_g, nrm2; cbn; lra. }
+  split; [exact Hb|].
+  destruct suff_convex_nonvacuous as [Hne [Hc _]].
+  destruct (suff_convex_lipschitz 1 ex_abs Hne Hc Hb) as [F [HL [_ [HC Hg]]]].
+  exists F. split; [exact HL|]. split; assumption.
+Qed.
+
+Example suff_support_nonvacuous :
+  support_cond (Some 1) ex_abs /\
+  exists (C : R1 -> Prop) (sigma : R1 -> R),
+    support_member (Some 1) C sigma /\ forall s, In s ex_abs -> genuine_support C sigma s.
+Proof.
+  assert (Hc : support_cond (Some 1) ex_abs).
+  { split; [|split].
+    - intros x g f H. unfold ex_abs in H. cbn [In] in H.
+      destruct H as [H|[H|[H|[]]]]; inversion H; subst; unfold ref_sup_fenchel; cbn; lra.
+    - intros xi gi fi xj gj fj Hi Hj. unfold ex_abs in Hi, Hj.
+      ex_pairs Hi Hj; unfold ref_sup_convex, vsub, vneg; cbn; lra.
+    - apply (proj1 suff_lipschitz_nonvacuous). }
+  split; [exact Hc|].
+  destruct (suff_support (Some 1) ex_abs (proj1 suff_convex_nonvacuous) Hc) as [C [sigma [HS [_ [_ Hg]]]]].
+  exists C, sigma. split; assumption.
+Qed.
+
+Example suff_graph_nonvacuous :
+  all_pairs ref_monotone ex_abs /\ all_pairs ref_nonexpansive ex_abs /\
+  monotone_op (graph_of ex_abs) /\ nonexpansive_op (graph_of ex_abs).
+Proof.
+  assert (H1 : all_pairs ref_monotone ex_abs).
+  { intros xi gi fi xj gj fj Hi Hj. unfold ex_abs in Hi, Hj.
+    ex_pairs Hi Hj; unfold ref_monotone, vsub, vneg; cbn; lra. }
+  assert (H2 : all_pairs ref_nonexpansive ex_abs).
+  { intros xi gi fi xj gj fj Hi Hj. unfold ex_abs in Hi, Hj.
+    ex_pairs Hi Hj; unfold ref_nonexpansive, nrm2, vsub, vneg; cbn; lra. }
+  destruct (suff_graph_classes ex_abs) as [_ [Hm [_ [_ [_ [_ Hn]]]]]].
+  split; [exact H1|]. split; [exact H2|]. split; [apply Hm, H1|apply Hn, H2].
 Qed.
